@@ -321,8 +321,27 @@ pub fn enumerate_x(n: usize, seed: u64) -> Vec<StreamCase> {
     let mut r = Lcg(seed ^ 0x57e); 
     crate::c01_oracle::enumerate_files(n, seed, false).into_iter().map(|fc| {
         let len = fc.file.len();
-        let cut = if r.next(4) == 0 { r.next(len as u64 + 1) as usize } else { len };
-        let fail_at = if r.next(3) == 0 { 1 + r.next(40) as usize } else { 0 };
-        StreamCase { file: fc.file, cut, fail_at, short_read: r.next(2) == 0, early_eof: r.next(3) == 0 }
+        let cut: usize = if r.next(4) == 0 { r.next(len as u64 + 1) as usize } else { len };
+        let mut fail_at = if r.next(3) == 0 { 1 + r.next(40) as usize } else { 0 };
+        let mut file = fc.file; let mut cut = cut;
+        // size boundaries: once in eighty cases the last section (.zdebug, uncompressed here) is moved to the end of the file and made
+        // 64 KiB .. 192 KiB long (a reader that works in 2^16-byte pieces, or narrows a length to 16 bits, shows there and nowhere below),
+        // with a fault that tends to land late in the run
+        if r.next(80) == 0 {
+            if let Ok(e) = ElfBytes::<AnyEndian>::minimal_parse(&file) {
+                let (shoff, shent, shnum) = (e.ehdr.e_shoff as usize, e.ehdr.e_shentsize as usize, e.ehdr.e_shnum as usize);
+                let (elf64, little) = (file[4] == 2, file[5] == 1);
+                if shnum == 16 && shoff + 16 * shent <= file.len() && (shent == 64 || shent == 40) {
+                    let big = [65536usize, 65537, 70000, 131072, 131073, 196608 + 5][r.next(6) as usize];
+                    let at = file.len(); file.resize(at + big, 0xA5);
+                    let h = shoff + 15 * shent;
+                    let put = |f: &mut Vec<u8>, o: usize, w: usize, v: u64| { let b = v.to_le_bytes(); for k in 0..w { f[o + k] = if little { b[k] } else { b[w - 1 - k] }; } };
+                    if elf64 { put(&mut file, h + 24, 8, at as u64); put(&mut file, h + 32, 8, big as u64); } else { put(&mut file, h + 16, 4, at as u64); put(&mut file, h + 20, 4, big as u64); }
+                    cut = file.len();
+                    if r.next(4) != 0 { fail_at = 8 + r.next(120) as usize; }
+                }
+            }
+        }
+        StreamCase { file, cut, fail_at, short_read: r.next(2) == 0, early_eof: r.next(3) == 0 }
     }).collect()
 }
